@@ -15,8 +15,8 @@ from check import Result  # noqa: E402
 # call-history properties over the IR state machine (C01 C02 C14, later C10 C19)
 #   runs: (module, scope, depth) per tier
 IR_RUNS = {
-    "C01": {"quick": [("MC", "conn", 2), ("MC", "contain", 3), ("MC", "body", 2), ("SUITE", "tests", 0)],
-            "thorough": [("MC", "conn", 3), ("MC", "contain", 4), ("MC", "body", 3), ("MC", "mirror", 2), ("SUITE", "tests", 0)]},
+    "C01": {"quick": [("MC", "conn", 2), ("MC", "contain", 3), ("MC", "body", 2), ("MC", "naming", 1), ("SUITE", "tests", 0)],
+            "thorough": [("MC", "conn", 3), ("MC", "contain", 4), ("MC", "body", 3), ("MC", "mirror", 2), ("MC", "naming", 2), ("SUITE", "tests", 0)]},
     "C02": {"quick": [("MC", "mirror", 1), ("MC", "mirror_add", 2), ("MC", "conn", 2), ("MC", "clone_closed", 1), ("SUITE", "tests", 0)],
             "thorough": [("MC", "mirror", 2), ("MC", "mirror_add", 3), ("MC", "conn", 3), ("MC", "clone_closed", 2), ("SUITE", "tests", 0)]},
     "C14": {"quick": [("MC", "conn", 2), ("MC", "mirror", 1), ("MC", "mirror_add", 2), ("MC", "naming", 2),
@@ -27,14 +27,14 @@ IR_RUNS = {
                       ("MC", "naming", 1), ("MC", "body", 2)],
             "thorough": [("MC", "conn", 3), ("MC", "mirror", 2), ("MC", "mirror_add", 3), ("MC", "contain", 3),
                          ("MC", "body", 3), ("MC", "naming", 2), ("MC", "naming_edif", 2), ("MC", "naming_mix", 2)]},
-    "C10": {"quick": [("MC", "naming", 2), ("MC", "naming_edif", 2), ("MC", "naming_mix", 2), ("MC", "naming_two", 1), ("MC", "naming_adopt", 2)],
-            "thorough": [("MC", "naming", 3), ("MC", "naming_edif", 3), ("MC", "naming_mix", 3), ("MC", "naming_two", 2), ("MC", "naming_adopt", 3)]},
+    "C10": {"quick": [("MC", "naming", 2), ("MC", "naming_edif", 2), ("MC", "naming_mix", 2), ("MC", "naming_two", 1), ("MC", "naming_adopt", 2), ("MC", "naming_adopt2", 2)],
+            "thorough": [("MC", "naming", 3), ("MC", "naming_edif", 3), ("MC", "naming_mix", 3), ("MC", "naming_two", 2), ("MC", "naming_adopt", 3), ("MC", "naming_adopt2", 3)]},
 }
 IR_LISTENERS = {"C19": "A"}
 IR_RUNS.update({
-    "C11": {"quick": [("MC", "hier_ghost", 1), ("MC", "hier11", 2), ("MC", "hier11", 10, 30), ("MC", "hier_edit", 1), ("MC", "hier_edit", 8, 20),
+    "C11": {"quick": [("MC", "hier_ghost", 1), ("MC", "hier_deep", 0), ("MC", "hier11", 2), ("MC", "hier11", 10, 30), ("MC", "hier_edit", 1), ("MC", "hier_edit", 8, 20),
                       ("MC", "hier_walk", 12, 40)],
-            "thorough": [("MC", "hier_ghost", 1), ("MC", "hier11", 4), ("MC", "hier11", 12, 600), ("MC", "hier_edit", 2),
+            "thorough": [("MC", "hier_ghost", 1), ("MC", "hier_deep", 0), ("MC", "hier11", 4), ("MC", "hier11", 12, 600), ("MC", "hier_edit", 2),
                          ("MC", "hier_edit", 10, 400), ("MC", "hier_walk", 16, 1500)]},
     "C07": {"quick": [("MC", "clone", 2), ("MC", "clone_top", 1), ("MC", "clone_edit", 0)],
             "thorough": [("MC", "clone", 5), ("MC", "clone", 10, 60), ("MC", "clone_top", 3), ("MC", "clone_edit", 1)]},
@@ -57,12 +57,12 @@ IR_RUNS.update({
             "thorough": [("MC", "edif_rt", 4), ("MC", "edif_rt1", 4), ("MC", "edif_rt", 12, 1500), ("MC", "edif_rt_br", 2), ("MC", "edif_reexport", 0), ("FILES", "edif_rt", 40000)]},
     "C20": {"quick": [("MC", "compare", 0)], "thorough": [("MC", "compare", 0)]},
     "C13": {"quick": [("MC", "query", 1), ("MC", "query_edif", 0), ("MC", "query_nons", 0)], "thorough": [("MC", "query", 30), ("MC", "query_edif", 0), ("MC", "query_nons", 0)]},
-    "C08": {"quick": [("MC", "xf", 3), ("MC", "xf_port", 4), ("MC", "xf", 12, 40), ("MC", "xf_late", 12, 40), ("MC", "xf_port2", 12, 40)],
-            "thorough": [("MC", "xf", 5), ("MC", "xf_port", 11), ("MC", "xf", 14, 1500), ("MC", "xf_late_port", 4), ("MC", "xf_late", 14, 600), ("MC", "xf_port2", 14, 600)]},
-    "C09": {"quick": [("MC", "xf", 2), ("MC", "xf_port", 6), ("MC", "xf", 12, 30)],
-            "thorough": [("MC", "xf", 5), ("MC", "xf_port", 11), ("MC", "xf", 14, 1500), ("MC", "xf_late", 14, 600)]},
-    "C12": {"quick": [("MC", "hier12", 3), ("MC", "hier12", 12, 60), ("MC", "hier12_pos", 12, 60), ("MC", "hier12_ft", 3), ("MC", "hier12_walk", 10, 30)],
-            "thorough": [("MC", "hier12", 5), ("MC", "hier12", 14, 1000), ("MC", "hier12_pos", 4), ("MC", "hier12_pos", 14, 1000), ("MC", "hier12_ft", 5), ("MC", "hier12_walk", 14, 400)]},
+    "C08": {"quick": [("MC", "xf", 3), ("MC", "xf_port", 4), ("MC", "xf", 12, 40), ("MC", "xf_late", 12, 40), ("MC", "xf_port2", 12, 40), ("MC", "xf4", 2)],
+            "thorough": [("MC", "xf", 5), ("MC", "xf_port", 11), ("MC", "xf", 14, 1500), ("MC", "xf_late_port", 4), ("MC", "xf_late", 14, 600), ("MC", "xf_port2", 14, 600), ("MC", "xf4", 4)]},
+    "C09": {"quick": [("MC", "xf", 2), ("MC", "xf_port", 6), ("MC", "xf", 12, 30), ("MC", "xf_noport", 2)],
+            "thorough": [("MC", "xf", 5), ("MC", "xf_port", 11), ("MC", "xf", 14, 1500), ("MC", "xf_late", 14, 600), ("MC", "xf_noport", 4)]},
+    "C12": {"quick": [("MC", "hier12", 3), ("MC", "hier12", 12, 60), ("MC", "hier12_pos", 12, 60), ("MC", "hier12_ft", 3), ("MC", "hier12_pt", 3), ("MC", "hier_deep", 0), ("MC", "hier12_walk", 10, 30)],
+            "thorough": [("MC", "hier12", 5), ("MC", "hier12", 14, 1000), ("MC", "hier12_pos", 4), ("MC", "hier12_pos", 14, 1000), ("MC", "hier12_ft", 5), ("MC", "hier12_pt", 5), ("MC", "hier_deep", 0), ("MC", "hier12_walk", 14, 400)]},
 })
 IR_RULE = {
     "C15": "for one design per format the valid rendering and EVERY single corruption of it (truncation before each token, "
